@@ -14,14 +14,16 @@ EXTENDS LiteralsOps, TLC, TLCExt, Json, IOUtils
 
 Traces == ndJsonDeserialize(IOEnv.TRACE_FILE)
 
-(* q: every observed event is visited in NQ sub-steps and each formula is evaluated in one of  *)
-(* them, so that one state violates at most one formula (TLC reports one per state).          *)
+(* q: every observed event is visited in several sub-steps and each property formula is       *)
+(* evaluated in exactly one of them, so that one state violates at most one property formula  *)
+(* (TLC reports one violated invariant per state): 1 = validity clauses, 2 = model             *)
+(* conformance (drift), 3 = RoundTrip, 4 = ParseBackAgrees (3, 4 only for C23 events).         *)
 VARIABLES tid, l, cur, q
 vars == <<tid, l, cur, q>>
-NQ == 6
 NoEv == [op |-> "none"]
-Init == /\ tid \in 1..Len(Traces) /\ l = 0 /\ cur = NoEv /\ q = NQ
-Next == IF q < NQ
+Last == IF l = 0 THEN 0 ELSE IF cur.op \in {"assert", "noassert", "observer_raised"} THEN 2 ELSE 4
+Init == /\ tid \in 1..Len(Traces) /\ l = 0 /\ cur = NoEv /\ q = 0
+Next == IF q < Last
         THEN q' = q + 1 /\ UNCHANGED <<tid, l, cur>>
         ELSE /\ l < Len(Traces[tid].ev)
              /\ l' = l + 1
@@ -43,35 +45,37 @@ AssertionHoldsOnObservedValue == (At(1) /\ IsA /\ cur.oc \notin {"raise", "nocom
 
 (* model conformance (reported as drift, never as a violation): the real observer creates the *)
 (* assertions of LiteralsOps!Observed, and the outcome is the one the as-coded model predicts   *)
-ObserverTotal       == At(4) => cur.op # "observer_raised"
-ObserverFollowsSpec == (At(4) /\ cur.op \in {"assert", "noassert"}) =>
+ObserverTotal       == At(2) => cur.op # "observer_raised"
+ObserverFollowsSpec == (At(2) /\ cur.op \in {"assert", "noassert"}) =>
                           ToSet(cur.akinds) = Observed(cur.case, cur.pos, AsCoded)
 AssertedValue == IF cur.src = "self" /\ cur.pos # "var" THEN Leaf("obj", "o_plain")
                  ELSE IF cur.src = "field" /\ cur.pos = "var" THEN Leaf("float", "f_pos")
                  ELSE cur.case
-OutcomeFollowsModel == (At(5) /\ IsA /\ cur.src # "sub") =>
+OutcomeFollowsModel == (At(2) /\ IsA /\ cur.src # "sub") =>
                           cur.oc = (IF cur.ak = "object" /\ cur.src = "self" /\ cur.pos = "global" THEN "pass"
                                     ELSE Predict(AssertedValue, cur.ak, cur.nctx, AsCoded))
 
 (* ------------------------------ C23 ------------------------------ *)
 Dom == InLitDomain(cur.case)
-RenderedLiteralIsValidPython == (At(1) /\ (IsR \/ IsG)) => (cur.raised = "" /\ cur.compiles)
+RenderedLiteralIsValidPython == (At(1) /\ ((IsR /\ Dom) \/ IsG)) => (cur.raised = "" /\ cur.compiles)
 EvaluatesToRequestedType ==
   /\ (At(1) /\ IsG /\ cur.raised = "" /\ cur.compiles) => (cur.evalok /\ cur.back.k = cur.req)
   /\ (At(1) /\ IsR /\ Dom /\ cur.raised = "" /\ cur.compiles) => (cur.evalok /\ cur.back.k = cur.case.k)
 RoundTrip ==
-  /\ (At(2) /\ IsR /\ Dom /\ cur.evalok) => Same(cur.v, cur.back)
-  /\ (At(2) /\ IsG /\ cur.evalok) => /\ cur.rr_ok /\ Same(cur.back, cur.back2)
+  /\ (At(3) /\ IsR /\ Dom /\ cur.evalok) => Same(cur.v, cur.back)
+  /\ (At(3) /\ IsG /\ cur.evalok) => /\ cur.rr_ok /\ Same(cur.back, cur.back2)
                             /\ (cur.seeded => Same(cur.seedv, cur.back))
 (* weakened: parse_literal may answer "not parseable" (None); when it answers, it must agree *)
 ParseBackAgrees ==
-  /\ (At(3) /\ IsR /\ Dom) => (cur.p_raised = "" /\ (cur.p_some => Same(cur.parsed, cur.v)))
-  /\ (At(3) /\ IsG /\ cur.evalok) => (cur.p_raised = "" /\ (cur.p_some => Same(cur.parsed, cur.back)))
+  /\ (At(4) /\ IsR /\ Dom) => (cur.p_raised = "" /\ (cur.p_some => Same(cur.parsed, cur.v)))
+  /\ (At(4) /\ IsG /\ cur.evalok) => (cur.p_raised = "" /\ (cur.p_some => Same(cur.parsed, cur.back)))
 
 (* model conformance (drift only) *)
-RaiseFollowsModel == (At(4) /\ IsR /\ Dom) => ((cur.raised # "") = HasRaise(RenderL(cur.case, AsCoded)))
-ShapeFollowsModel == (At(5) /\ IsR /\ Dom /\ cur.m = 0 /\ cur.raised = "") => Same(cur.shape, RenderL(cur.case, AsCoded))
-BackFollowsModel  == (At(6) /\ IsR /\ Dom /\ cur.m = 0 /\ cur.evalok) => Same(cur.backc, Eval(RenderL(cur.case, AsCoded)))
-FallbackIsNone    == (At(6) /\ IsR /\ ~Dom /\ cur.case.k \notin ContainerKinds /\ cur.case.k \notin {"enum"} /\ cur.evalok)
-                        => cur.back.k = "none"
+RaiseFollowsModel == (At(2) /\ IsR /\ Dom) => ((cur.raised # "") = HasRaise(RenderL(cur.case, AsCoded)))
+ShapeFollowsModel == (At(2) /\ IsR /\ Dom /\ cur.m = 0 /\ cur.raised = "") => Same(cur.shape, RenderL(cur.case, AsCoded))
+BackFollowsModel  == (At(2) /\ IsR /\ Dom /\ cur.m = 0 /\ cur.evalok) => Same(cur.backc, Eval(RenderL(cur.case, AsCoded)))
+(* values without a literal representation: documented fallback `None` *)
+FallbackIsNone    == (At(2) /\ IsR /\ ~Dom /\ (cur.case.k \in {"none", "frozenset"} \/
+                          (cur.case.k = "obj" /\ cur.case.c \notin {"o_floatsub", "o_intsub", "o_deeplist"})))
+                        => (cur.raised = "" /\ cur.evalok /\ cur.back.k = "none")
 =============================================================================
